@@ -20,7 +20,7 @@ RULE = (
     "canonicalize applying it a second time (object and text equality); driver comparing canon(pi(e),o) with "
     "canon(e,o) for random presentation permutations pi (factor order, product nesting, variable order on either "
     "side of the bar, range order); offline checker over the canonical texts printed by 4 sub-processes with "
-    "PYTHONHASHSEED in {0,1,2,random} for the same seeded corpus. non-trivial = expression has a product with >=2 "
+    "PYTHONHASHSEED in {0,1,2,3,5,9,14,42,123,random,random} for the same seeded corpus. non-trivial = expression has a product with >=2 "
     "factors or a probability with >=2 variables on one side; distinct by constructor source."
 )
 ASSUMPTIONS = ["presentation permutations are those of the statement: factor order, product nesting, variable order "
@@ -30,6 +30,7 @@ REQUIRED = ["eval:canonicalize", "C11:idempotence-checked", "C11:permutation-pai
 TIMEOUT = {"quick": 900, "thorough": 7200}
 
 OPTS = c10.OPTS
+HASH_SEEDS = ("0", "1", "2", "3", "5", "9", "14", "42", "123", "random", "random")
 
 
 def targeted(rng):
@@ -37,7 +38,21 @@ def targeted(rng):
     names = rng.sample(ge.NAMES, 5)
     a, b, c, d, e = names
     v = lambda n, star=None, ivs=(): [n, star, [list(i) for i in ivs]]  # noqa: E731
-    k = rng.randrange(9)
+    k = rng.randrange(12)
+    if k == 9:  # nested products/fractions over a small pool of atoms (coinciding parts after multiplying out)
+        atoms = [["P", None, [v(a)], []], ["P", None, [v(b)], [v(a)]], ["sum", [c], ["P", None, [v(c), v(d)], []]]]
+        return ge.rand_fracnest(rng, atoms[: rng.choice([2, 3])], rng.choice([2, 3, 3]))
+    if k == 10:  # ((x*y)/x)/y and relatives
+        x, y = ["P", None, [v(a)], []], ["P", None, [v(b)], []]
+        return rng.choice([["frac", ["frac", ["prod", [x, y]], x], y], ["frac", ["frac", x, y], ["frac", x, y]],
+                           ["frac", ["prod", [["frac", x, y], y]], x], ["frac", ["frac", ["prod", [x, y]], y], ["frac", x, ["one"]]]])
+    if k == 11:  # sums over one summand with different, multi-variable ranges
+        # (a conditional or a product as the summand: a sum over a plain joint would be simplified away)
+        body = rng.choice([["P", None, [v(a)], [v(b), v(c), v(d)]], ["P", None, [v(a), v(b)], [v(c), v(d)]],
+                           ["prod", [["P", None, [v(a)], [v(b), v(c)]], ["P", None, [v(b)], [v(d)]]]]])
+        rs = [[b, c], [b], [c, d], [b, c, d], [d]]
+        rng.shuffle(rs)
+        return ["prod", [["sum", sorted(r), body] for r in rs[: rng.choice([2, 3])]]]
     if k == 0:  # equal first child
         return ["prod", [["P", None, [v(a)], [v(b)]], ["P", None, [v(a)], [v(c)]], ["P", None, [v(a), v(d)], []]]]
     if k == 1:  # 1/(1/x)
@@ -147,7 +162,7 @@ def sweep(ctx, n):
     env["PYTHONPATH"] = VERIF_DIR + os.pathsep + env.get("PYTHONPATH", "")
     env.pop("Y0_VERIF", None)
     outs = {}
-    for hs in ("0", "1", "2", "random"):
+    for hs in HASH_SEEDS:
         env["PYTHONHASHSEED"] = hs
         try:
             p = subprocess.run([sys.executable, "-m", "vmon.props.c11", "--emit", str(ctx.seed * 1000 + ctx.shard), str(n)],
@@ -158,8 +173,8 @@ def sweep(ctx, n):
         if p.returncode != 0:
             kernel.monitor_error("c11.sweep", RuntimeError(p.stderr[-500:]))
             return
-        outs[hs] = [json.loads(l) for l in p.stdout.splitlines() if l.startswith("[")]
-    base = outs["0"]
+        outs[f"{hs}#{len(outs)}"] = [json.loads(l) for l in p.stdout.splitlines() if l.startswith("[")]
+    base = outs["0#0"]
     asts = corpus(ctx.seed * 1000 + ctx.shard, n)
     for hs, lines in outs.items():
         if len(lines) != len(base):
